@@ -85,6 +85,16 @@ PROPS = {
             dict(name="VerifLimitASCIIHex", pkg=FI, bounds=dict(quick=dict(N=3), thorough=dict(N=4)), opts=dict(unwind=100)),
         ],
     ),
+    "C09": dict(
+        pkg=MO,
+        explanation="the guard kernels that stand between attacker-controlled integers and allocation, executed symbolically with the integers at full 64-bit range and the limits symbolic: xref stream /Size and /Index expansion (xRefStreamSize, xRefStreamObjects, FromIndex, FromSize; limits symbolic in 1..LIM so that admitted loops stay short), object stream /N and /First (limits fully symbolic), image width x height against MaxImagePixels / MaxImageBytes (all five values fully symbolic, overflow-free product as oracle); the decode-limit kernels are checked under C16. An allocation whose size the path condition does not bound is reported by the engine",
+        outside="peak memory and constant factors, decompression itself, readStreamContent growth, recursion depth of whole-document traversals, limits above LIM for the xref expansion loops",
+        harnesses=[
+            dict(name="VerifXRefStreamLimits", bounds=dict(quick=dict(LIM=4), thorough=dict(LIM=8)), opts=dict(unwind=300)),
+            dict(name="VerifObjectStreamLimits", opts=dict(unwind=100)),
+            dict(name="VerifImageLimits", opts=dict(enc="int", solver="z3-new", timeout_ms=60000, unwind=100)),
+        ],
+    ),
     "C11": dict(
         pkg=PD,
         explanation="appendPDFObject (the writer's object serialiser) followed by model.ParseObjectContext (the reader's object parser), executed symbolically: every leaf kind with symbolic content (null, boolean, integer up to INTMAX in magnitude, names without NUL, escaped literal strings and hex strings of <= S bytes, indirect references), and arrays / dictionaries / nested containers over every ordered pair of neighbouring leaf kinds (separator decisions) with representative concrete leaves and a symbolic one-byte dictionary key; hex strings compare by their bytes, null dictionary entries read back as absent",
